@@ -393,3 +393,111 @@ func ZZ_C14_EnhancedAuth() {
 		zzrt.Cover("multi-step")
 	}
 }
+
+// ZZ_C14_Unsubscribe: the OnUnsubscribe hook may reject an unsubscription (globally or
+// per topic) or rewrite its topic; what is removed from the subscription store, what
+// UNSUBACK reports and what OnUnsubscribed is told all follow the hook's decision.
+func ZZ_C14_Unsubscribe() {
+	srv := defaultServer()
+	db := submem.NewStore()
+	srv.subscriptionsDB = db
+	ver := packets.Version311
+	if zzrt.ConcreteBool(zzrt.Bool()) {
+		ver = packets.Version5
+	}
+	c := &client{server: srv, version: ver, rwc: &zzConn{}, queueStore: &zzRecQueue{}, out: make(chan packets.Packet, 8), close: make(chan struct{}),
+		opts: &ClientOptions{ClientID: "c1"}}
+	// installed: the two names a client may send and the name a hook may rewrite to
+	for _, f := range []string{"a", "b/+", "t/a"} {
+		db.Subscribe("c1", &gmqtt.Subscription{TopicFilter: f, QoS: 1})
+	}
+	names := []string{"a", "b/+"}
+	var global error
+	if zzrt.Choice(3) == 0 {
+		code := zzrt.Byte()
+		zzrt.Assume(code >= 0x80)
+		global = &codes.Error{Code: code}
+	}
+	type dec struct {
+		reject  bool
+		code    byte
+		rewrite bool
+	}
+	decs := map[string]*dec{}
+	for _, n := range names {
+		d := &dec{}
+		switch zzrt.Choice(3) {
+		case 1:
+			d.reject = true
+			d.code = zzrt.Byte()
+			zzrt.Assume(d.code >= 0x80)
+		case 2:
+			d.rewrite = n == "a" // "a" is rewritten to "t/a"
+		}
+		decs[n] = d
+	}
+	calls := 0
+	srv.hooks.OnUnsubscribe = func(ctx context.Context, cl Client, r *UnsubscribeRequest) error {
+		calls++
+		if global != nil {
+			return global
+		}
+		for n, d := range decs {
+			if d.reject {
+				r.Reject(n, &codes.Error{Code: d.code})
+			}
+			if d.rewrite {
+				r.Unsubs[n].TopicName = "t/" + n
+			}
+		}
+		return nil
+	}
+	var told []string
+	srv.hooks.OnUnsubscribed = func(ctx context.Context, cl Client, topic string) { told = append(told, topic) }
+	c.unsubscribeHandler(&packets.Unsubscribe{Version: ver, PacketID: 6, Topics: names, Properties: &packets.Properties{}})
+	zzrt.Assert(calls == 1, "unsubscribe-hook-fires-exactly-once")
+	out := zzDrain(c)
+	zzrt.Assert(len(out) == 1, "one-unsuback")
+	ack := out[0].(*packets.Unsuback)
+	zzrt.Assert(ack.PacketID == 6, "unsuback-carries-the-packet-identifier")
+	has := func(f string) bool { return len(subscription.Get(db, f, subscription.TypeAll)["c1"]) == 1 }
+	for i, n := range names {
+		d := decs[n]
+		target := n
+		if d.rewrite && global == nil {
+			target = "t/" + n
+		}
+		rejected := global != nil || d.reject
+		if rejected {
+			zzrt.Assert(has(n), "rejected-unsubscription-removes-nothing")
+			if ver == packets.Version5 {
+				want := d.code
+				if global != nil {
+					want = global.(*codes.Error).Code
+				}
+				zzrt.Assert(len(ack.Payload) == 2 && ack.Payload[i] == want, "v5-unsuback-carries-the-hook-reason-code")
+			}
+			zzrt.Cover("rejected")
+		} else {
+			zzrt.Assert(!has(target), "the-topic-the-hook-decided-on-is-removed")
+			if target != n {
+				zzrt.Assert(has(n), "a-rewritten-unsubscription-leaves-the-requested-name-alone")
+				zzrt.Cover("rewritten")
+			}
+			if ver == packets.Version5 {
+				zzrt.Assert(len(ack.Payload) == 2 && ack.Payload[i] == codes.Success, "v5-unsuback-reports-success")
+			}
+			toldIt := false
+			for _, t := range told {
+				if t == target {
+					toldIt = true
+				}
+			}
+			zzrt.Assert(toldIt, "unsubscribed-hook-told-the-removed-topic")
+			zzrt.Cover("removed")
+		}
+	}
+	if !(decs["a"].rewrite && global == nil && !decs["a"].reject) {
+		zzrt.Assert(has("t/a"), "unrelated-subscription-untouched")
+	}
+}
